@@ -45,6 +45,8 @@ func (k *K1) MapList(m map[string][]int) int { return len(m) }
 func (k *K1) Pair(p P1) int                  { return p.A + p.B }
 func (k *K1) PairPtr(p *P1) int              { return p.A * p.B }
 func (k *K1) Bytes(b []byte) int             { return len(b) }
+func (k *K1) Empty() []string                { return []string{} }
+func (k *K1) EmptyMap() map[string]int       { return map[string]int{} }
 func (k *K1) Pairs(p []P1) int               { return len(p) }
 func (k *K1) Get() P1                        { return P1{A: k.N, B: 2} }
 func (k *K1) List() []map[string]int         { return []map[string]int{{"a": k.N}} }
@@ -69,6 +71,8 @@ var programs = []string{
 	`s := 0; for i := 0; i < 400; i++ { s += i % 256 }; [s, byte(7) + byte(250), 255 + 1]`,
 	`import lib; lib.twice(21) + lib.base`,
 	`x.N = 5; x.Ints([1]) + x.Get().A`,
+	// containers converted from EMPTY Go values are the evaluation's own: filling them must not show elsewhere
+	"l := x.Empty()\nfor i := 0; i < 50; i++ {\nl.append(string(i))\n}\nm := x.EmptyMap()\nm[\"k\" + string(len(l))] = 1\nes.append(len(l))\nem[\"a\"] = len(m)\n[len(l), len(m), es, em, len(x.Empty()), len(x.EmptyMap())]",
 	// every registered codec, with a payload large enough for calls of different evaluations to overlap
 	"s := \"\"\nfor i := 0; i < 400; i++ {\ns = s + \"abcdefghij\" + string(i)\n}\nok := []\nfor _, c := range [\"base64\", \"base32\", \"hex\", \"gzip\", \"urlquery\"] {\nfor k := 0; k < 6; k++ {\nok.append(string(decode(encode(s, c), c)) == s)\n}\n}\n[len(s), ok, len(encode(s, \"gzip\")) > 0, decode(encode([[\"a\", \"b\"], [\"c\", \"d\"]], \"csv\"), \"csv\"), decode(encode({\"k\": [1, 2]}, \"json\"), \"json\")]",
 }
@@ -153,6 +157,7 @@ func concWorker(req N) (resp N) {
 			return res.Inspect()
 		}
 		res, err := risor.Eval(ctx, programs[pi], risor.WithGlobal("x", &K1{N: gi}), risor.WithGlobal("y", K2{S: "s" + strconv.Itoa(gi)}),
+			risor.WithGlobal("es", []int{}), risor.WithGlobal("em", map[string]int{}),
 			risor.WithLocalImporter(dir))
 		if err != nil {
 			return "ERR " + err.Error()
